@@ -537,3 +537,39 @@ func globalNonNil(g *ssa.Global, memo nonNilMemo, depth int) bool {
 	// methods are not package members: scan them too
 	return ok && stores == 1
 }
+
+// PathAvoiding reports whether some path from the start of block `from` reaches instruction
+// `to` without executing any instruction in `must` (a path may not re-enter `from`'s start).
+func PathAvoiding(from *ssa.BasicBlock, must []ssa.Instruction, to ssa.Instruction) bool {
+	tb := to.Block()
+	ti := instrIndex(to)
+	blockedAt := map[*ssa.BasicBlock]int{} // first index of a must instruction in the block
+	for _, m := range must {
+		i := instrIndex(m)
+		if cur, ok := blockedAt[m.Block()]; !ok || i < cur {
+			blockedAt[m.Block()] = i
+		}
+	}
+	seen := map[*ssa.BasicBlock]bool{from: true}
+	work := []*ssa.BasicBlock{from}
+	for len(work) > 0 {
+		b := work[len(work)-1]
+		work = work[:len(work)-1]
+		bi, blocked := blockedAt[b]
+		if b == tb {
+			if !blocked || bi > ti {
+				return true
+			}
+		}
+		if blocked {
+			continue
+		}
+		for _, s := range b.Succs {
+			if !seen[s] {
+				seen[s] = true
+				work = append(work, s)
+			}
+		}
+	}
+	return false
+}
